@@ -84,6 +84,10 @@ type SIf struct {
 	Cond       Expr
 	Then, Else []Stmt
 }
+type SBranch struct { // unconditional break / continue (Label "" = unlabelled)
+	Kind  int
+	Label string
+}
 type SReturn struct{ E Expr }
 type SThrow struct{ E Expr }
 type SDestruct struct {
@@ -112,6 +116,14 @@ type ESpreadLen struct {
 	Iter Expr
 }
 type ETemplate struct{ Parts []Expr }
+
+// built-ins that consume an iterable and must close it on failure
+type EArrayFrom struct { // Array.from(ITER, fn).length ; Fn == "" : no mapping function
+	Iter Expr
+	Fn   string
+}
+type ESetSize struct{ Iter Expr } // new Set(ITER).size
+type EMapSize struct{ Iter Expr } // new Map(ITER).size  (items are not entry objects: TypeError + IteratorClose)
 type EIt struct{ Site, N, Flags int }
 type EArr struct{ Elems []Expr }
 type EGenCall struct {
@@ -227,6 +239,7 @@ func printProgram(pr *Program) string {
 		}
 		p.line("%s %s(%s) {", kw, f.Name, strings.Join(f.Params, ", "))
 		p.ind++
+		p.line("var _d = 0;")
 		if len(f.Locals) > 0 {
 			p.line("var %s = 0;", strings.Join(f.Locals, " = 0, "))
 		}
@@ -263,22 +276,30 @@ func (p *ctlPrinter) stmts(ss []Stmt) {
 				p.line("P(%d);", s.Site)
 				continue
 			}
+			// an if-chain, not a switch: an unlabelled break must target the enclosing loop, not the exit point itself
 			var sb strings.Builder
-			fmt.Fprintf(&sb, "switch (P(%d) %% %d) {", s.Site, len(s.Exits)+1)
+			fmt.Fprintf(&sb, "_d = P(%d) %% %d;", s.Site, len(s.Exits)+1)
 			for i, x := range s.Exits {
-				fmt.Fprintf(&sb, " case %d: ", i+1)
+				fmt.Fprintf(&sb, " if (_d === %d) ", i+1)
 				switch x.Kind {
 				case xThrow:
 					fmt.Fprintf(&sb, "throw %d;", x.Val)
 				case xBreak:
-					fmt.Fprintf(&sb, "break %s;", x.Label)
+					if x.Label == "" {
+						sb.WriteString("break;")
+					} else {
+						fmt.Fprintf(&sb, "break %s;", x.Label)
+					}
 				case xContinue:
-					fmt.Fprintf(&sb, "continue %s;", x.Label)
+					if x.Label == "" {
+						sb.WriteString("continue;")
+					} else {
+						fmt.Fprintf(&sb, "continue %s;", x.Label)
+					}
 				case xReturn:
 					fmt.Fprintf(&sb, "return %d;", x.Val)
 				}
 			}
-			sb.WriteString(" }")
 			p.line("%s", sb.String())
 		case *SExpr:
 			p.line("%s;", exprJS(s.E))
@@ -351,6 +372,16 @@ func (p *ctlPrinter) stmts(ss []Stmt) {
 				p.block(s.Else)
 			}
 			p.line("}")
+		case *SBranch:
+			kw := "break"
+			if s.Kind == xContinue {
+				kw = "continue"
+			}
+			if s.Label == "" {
+				p.line("%s;", kw)
+			} else {
+				p.line("%s %s;", kw, s.Label)
+			}
 		case *SReturn:
 			p.line("return %s;", exprJS(s.E))
 		case *SThrow:
@@ -421,6 +452,15 @@ func exprJS(e Expr) string {
 			return fmt.Sprintf("[%s, ...%s].length", exprJS(e.Pre), exprJS(e.Iter))
 		}
 		return fmt.Sprintf("[...%s].length", exprJS(e.Iter))
+	case *EArrayFrom:
+		if e.Fn != "" {
+			return fmt.Sprintf("Array.from(%s, %s).length", exprJS(e.Iter), e.Fn)
+		}
+		return fmt.Sprintf("Array.from(%s).length", exprJS(e.Iter))
+	case *ESetSize:
+		return fmt.Sprintf("new Set(%s).size", exprJS(e.Iter))
+	case *EMapSize:
+		return fmt.Sprintf("new Map(%s).size", exprJS(e.Iter))
 	case *ETemplate:
 		var sb strings.Builder
 		sb.WriteString("`")
